@@ -11,6 +11,7 @@ import (
 	"path/filepath"
 	"sort"
 	"strings"
+	"sync"
 
 	"github.com/spf13/viper"
 
@@ -29,7 +30,7 @@ type PoolOp struct {
 	Nonce   uint64 `json:"nonce,omitempty"`
 	Variant int    `json:"variant,omitempty"` // payload variant: same (acct, nonce), different hash
 	Admin   int    `json:"admin,omitempty"`
-	Take    int    `json:"take,omitempty"`   // commit: how many of the last reap go into the block
+	Take    int    `json:"take,omitempty"`    // commit: how many of the last reap go into the block
 	FailAt  int    `json:"fail_at,omitempty"` // commit: position (in the block) of a tx whose execution fails; 0 = none
 }
 type PoolCase struct {
@@ -211,7 +212,7 @@ func runPoolCase(idx int, c PoolCase) (string, []MonitorHit, map[string]int, boo
 		return sxL(ps, ws, sxL(as...), sxL(es...), sxZ(int64(vp.Size())))
 	}
 	var ops []string
-	committed := map[int]bool{} // ids contained in some committed block
+	committed := map[int]bool{}   // ids contained in some committed block
 	resubmitted := map[int]bool{} // administrative requests submitted again after a block contained them
 	var lastReap []*poolTx
 	var lastReapRaw [][]byte
@@ -447,6 +448,9 @@ func runMemCase(idx int, c MemCase) (string, []MonitorHit, map[string]int, bool)
 	return sxL(ops...), hits, dist, nontrivial
 }
 
+// engines whose cases mostly wait (child processes, timers) run them concurrently
+var genericParallel = 1
+
 func runGenericEngine(name, rule string, args []string, gen func(*Rng, int) interface{}, load func(string) (interface{}, error),
 	run func(int, interface{}, string) (string, []MonitorHit, map[string]int, bool)) error {
 	var corpus string
@@ -481,8 +485,38 @@ func runGenericEngine(name, rule string, args []string, gen func(*Rng, int) inte
 	}
 	dist := NewDistinct()
 	var sb strings.Builder
+	type caseRes struct {
+		line string
+		hits []MonitorHit
+		d    map[string]int
+		nt   bool
+	}
+	results := make([]caseRes, len(cases))
+	if genericParallel > 1 {
+		sem := make(chan struct{}, genericParallel)
+		var wg sync.WaitGroup
+		for i := range cases {
+			wg.Add(1)
+			sem <- struct{}{}
+			go func(i int) {
+				defer wg.Done()
+				defer func() { <-sem }()
+				r := &results[i]
+				r.line, r.hits, r.d, r.nt = run(i, cases[i], c.Out)
+			}(i)
+		}
+		wg.Wait()
+	}
 	for i, cs := range cases {
-		line, hits, d, nt := run(i, cs, c.Out)
+		var line string
+		var hits []MonitorHit
+		var d map[string]int
+		var nt bool
+		if genericParallel > 1 {
+			line, hits, d, nt = results[i].line, results[i].hits, results[i].d, results[i].nt
+		} else {
+			line, hits, d, nt = run(i, cs, c.Out)
+		}
 		sb.WriteString(line + "\n")
 		meta.Monitor = append(meta.Monitor, hits...)
 		for k, v := range d {
@@ -511,7 +545,9 @@ func init() {
 			args,
 			func(r *Rng, i int) interface{} { return genPoolCase(r, i) },
 			func(f string) (interface{}, error) {
-				var rc struct{ Case PoolCase `json:"case"` }
+				var rc struct {
+					Case PoolCase `json:"case"`
+				}
 				err := readJSON(f, &rc)
 				if err == nil && len(rc.Case.Ops) == 0 {
 					err = fmt.Errorf("not a pool case")
@@ -528,7 +564,9 @@ func init() {
 			args,
 			func(r *Rng, i int) interface{} { return genMemCase(r, i) },
 			func(f string) (interface{}, error) {
-				var rc struct{ Case MemCase `json:"case"` }
+				var rc struct {
+					Case MemCase `json:"case"`
+				}
 				err := readJSON(f, &rc)
 				if err == nil && len(rc.Case.Ops) == 0 {
 					err = fmt.Errorf("not a mempool case")
